@@ -56,7 +56,13 @@ def check_score(ctx, case):
     n = len(cands)
     if which == "vector":
         vec = [canon.pf(v) for v in case["vector"]]
-        out = observe(U.score_profile_from_rankings, prof, vec)
+        given = list(vec)
+        out = observe(U.score_profile_from_rankings, prof, given)
+        ctx.count("input_vector_unchanged_checks")
+        if given != vec or len(given) != len(vec):
+            ctx.fail("score_profile_from_rankings changed the score vector it was given (a caller reusing the list gets different "
+                     "scores on the next call)", case, {"before": [canon.fs(v) for v in vec], "after": [canon.fs(v) for v in given]})
+            return
         exp = scoring.positional(cands, ballots, vec)
         total = sum((F(v) for v in vec[:n]), F(0))
         if any(isinstance(v, float) for v in vec):
@@ -136,6 +142,38 @@ def check_invalid_vectors(ctx):
         out = observe(U.score_profile_from_rankings, prof, vec)
         if not out.ok:
             ctx.fail("valid non-increasing vector rejected", {"kind": "valid_vector", "vector": vec}, {"outcome": repr(out)})
+
+
+def check_vector_reuse(ctx, case):
+    """the same score-vector LIST object used for two Borda elections / scoring calls on profiles of different sizes"""
+    import votekit.elections as el
+    import votekit.utils as U
+
+    vec = [canon.pf(v) for v in case["vector"]]
+    shared = list(vec)
+    ctx.case(case, nontrivial=True)
+    for i, spec in enumerate(case["profiles"]):
+        cands, ballots = canon.plain(spec)
+        prof = canon.build_profile(spec)
+        exp = scoring.positional(cands, ballots, vec)
+        if case["via"] == "borda":
+            o = observe(lambda: el.Borda(prof, m=1, score_vector=shared, tiebreak="random"))
+            got = dict(o.value.election_states[0].scores) if o.ok else None
+        else:
+            o = observe(U.score_profile_from_rankings, prof, shared)
+            got = dict(o.value) if o.ok else None
+        ctx.count("vector_reuse_calls")
+        if not o.ok:
+            ctx.fail(f"scoring with a reused vector list raised {o.etype} on call {i + 1}", case, {"msg": str(o.exc)[:200]})
+            return
+        if got != exp:
+            ctx.fail(f"scores differ from the definition on call {i + 1} with a score-vector list that was used before", case,
+                     {"call": i + 1, "got": canon.scores_c(got), "exp": canon.scores_c(exp), "vector_now": [canon.fs(v) for v in shared]})
+            return
+        if shared != vec:
+            ctx.fail("a scoring call / Borda election changed the score-vector list it was given", case,
+                     {"call": i + 1, "after": [canon.fs(v) for v in shared]})
+            return
 
 
 def check_election(ctx, case, max_runs):
@@ -224,6 +262,15 @@ def run(ctx):
         if ctx.expired():
             break
         ctx.guard("check_score", check_score, ctx, gen_score_case(ctx.rnd, maxn))
+    for i in range(ctx.n(800, 12000)):
+        if ctx.expired():
+            break
+        rnd = ctx.rnd
+        sizes = rnd.sample([2, 3, 4, 5, 6], 3)
+        vec = sorted([rnd.choice([1, 2, 3, 5, 7, F(1, 2)]) for _ in range(rnd.randint(3, 7))], reverse=True)
+        profs = [gen.ranked(rnd, n=k, ties=rnd.random() < 0.5, maxb=5) for k in sizes]
+        ctx.guard("vector_reuse", check_vector_reuse, ctx, {"kind": "vector_reuse", "via": rnd.choice(["borda", "util"]),
+                                                          "vector": [canon.fs(F(v)) for v in vec], "profiles": profs})
     for i in range(ctx.n(6000, 120000)):
         if ctx.expired():
             break
@@ -232,7 +279,9 @@ def run(ctx):
 
 
 def replay(ctx, case):
-    if case.get("kind") == "score":
+    if case.get("kind") == "vector_reuse":
+        check_vector_reuse(ctx, case)
+    elif case.get("kind") == "score":
         check_score(ctx, case)
     elif "cfg" in case:
         check_election(ctx, case, 1)
